@@ -154,7 +154,8 @@ def classify(wl, out):
         own_raise = bool(out.exc_frames) and out.exc_frames[-1][0] not in ("<ext>", "<simkit>")
         if steps <= 1 and (innermost[1] in ENTRY_FUNCS or own_raise):
             return "refused", None
-    if out.exc_class in ("TypeError", "ValueError") and not in_progress and bool(out.exc_frames) and tuple(out.exc_frames[-1][:2]) in SUGGESTION_VALIDATORS:
+    if (out.exc_class in ("TypeError", "ValueError") and not in_progress and bool(out.exc_frames) and tuple(out.exc_frames[-1][:2]) in SUGGESTION_VALIDATORS
+            and len(out.exc_frames[-1]) > 2 and out.exc_frames[-1][2]):  # a `raise` statement of that function, not a failing operation in it
         return "refused_by_suggestion", None
     if out.exc_class == "SimDeadlock" and out.stall_injected:
         return "injected", None
